@@ -808,16 +808,27 @@ func (s *Stream) handleData(off int64, b []byte, fin bool) error {
 	if err := s.checkStreamBounds(end, fin); err != nil {
 		return err
 	}
-	if s.inclosed.isSet() || s.inresetcode != -1 {
-		// The user read-closed the stream, or the peer reset it.
-		// Either way, we can discard this frame.
-		return nil
-	}
 	if s.insize == -1 && end > s.in.end {
 		added := end - s.in.end
 		if err := s.conn.handleStreamBytesReceived(added); err != nil {
 			return err
 		}
+	}
+	if s.inclosed.isSet() || s.inresetcode != -1 {
+		// The user read-closed the stream, or the peer reset it.
+		// Either way, we can discard this frame.
+		// The bytes still consume connection-level flow control;
+		// return it right away and remember the highest offset and the final size.
+		if s.insize == -1 {
+			if end > s.in.end {
+				s.conn.handleStreamBytesReadOnLoop(end - s.in.end)
+				s.in.discardBefore(end)
+			}
+			if fin {
+				s.insize = end
+			}
+		}
+		return nil
 	}
 	if len(s.inset) > 0 && s.inset[0].contains(off) {
 		// We've received at least some of this data,
